@@ -94,23 +94,39 @@ def Statement_orderby_spec : Prop :=
     (evalOrderBy keys rows).Perm rows ∧
     (evalOrderBy keys rows).Pairwise (fun a b => sparqlPrecedes keys b a = false)
 
-/-- every sort key value is one on which rdflib's literal comparison is consistent
-    (numeric datatype URIs sort between xsd:boolean and xsd:string) -/
-def KeysOk (keys : List (Expr × Bool)) (rows : List Row) : Prop :=
-  ∀ k ∈ keys, ∀ r ∈ rows, okKey (evalE k.1 r) = true
+/-- every sort key value is one on which rdflib's literal comparison is consistent (`okKey`, Spec.lean): either
+    no key is an xsd:date / xsd:dateTime and the numeric datatype URIs sort between xsd:boolean and xsd:string (all
+    but xsd:unsigned*), or dates are present and the numeric datatype URIs sort between xsd:dateTime and xsd:string
+    (all but xsd:byte and xsd:unsigned*) -/
+def KeysOkAt (wd : Bool) (keys : List (Expr × Bool)) (rows : List Row) : Prop :=
+  ∀ k ∈ keys, ∀ r ∈ rows, okKey wd (evalE k.1 r) = true
+
+def KeysOk (keys : List (Expr × Bool)) (rows : List Row) : Prop := KeysOkAt false keys rows ∨ KeysOkAt true keys rows
+
+instance (wd : Bool) (keys : List (Expr × Bool)) (rows : List Row) : Decidable (KeysOkAt wd keys rows) := by
+  unfold KeysOkAt; infer_instance
 
 instance (keys : List (Expr × Bool)) (rows : List Row) : Decidable (KeysOk keys rows) := by
   unfold KeysOk; infer_instance
 
+instance (wd : Bool) (a : AggSpec) (rows : List Row) : Decidable (ValsOkAt wd a rows) := by
+  unfold ValsOkAt; infer_instance
+
+instance (a : AggSpec) (rows : List Row) : Decidable (ValsOk a rows) := by
+  unfold ValsOk; infer_instance
+
 /-- stable_sort_chain: the repeated stable sort, last key first, sorts lexicographically -/
 theorem stable_sort_chain (keys : List (Expr × Bool)) (rows : List Row) (h : KeysOk keys rows) :
-    (evalOrderBy keys rows).Perm rows ∧ (evalOrderBy keys rows).Pairwise (fun a b => lexLt keys b a = false) :=
-  ⟨perm_evalOrderBy keys rows, sorted_evalOrderBy keys rows h⟩
+    (evalOrderBy keys rows).Perm rows ∧ (evalOrderBy keys rows).Pairwise (fun a b => lexLt keys b a = false) := by
+  refine ⟨perm_evalOrderBy keys rows, ?_⟩
+  rcases h with h | h
+  · exact sorted_evalOrderBy false keys rows h
+  · exact sorted_evalOrderBy true keys rows h
 
 theorem orderby_spec_partial (keys : List (Expr × Bool)) (rows : List Row) (h : KeysOk keys rows) :
     (evalOrderBy keys rows).Perm rows ∧
     (evalOrderBy keys rows).Pairwise (fun a b => sparqlPrecedes keys b a = false) := by
-  refine ⟨perm_evalOrderBy keys rows, (sorted_evalOrderBy keys rows h).imp ?_⟩
+  refine ⟨perm_evalOrderBy keys rows, (stable_sort_chain keys rows h).2.imp ?_⟩
   intro a b hab
   cases hp : sparqlPrecedes keys b a with
   | false => rfl
@@ -317,7 +333,8 @@ def Statement_max_spec : Prop :=
 
 theorem min_spec_partial (a : AggSpec) (rows : List Row) (hk : a.kind = .min) (hok : ValsOk a rows) :
     minOk (aggValue a rows) (argVals a rows) = true := by
-  rcases min_inv a hk rows hok with ⟨h1, h2⟩ | ⟨m, h1, h2⟩
+  have hinv := hok.elim (min_inv false a hk rows) (min_inv true a hk rows)
+  rcases hinv with ⟨h1, h2⟩ | ⟨m, h1, h2⟩
   · simp [aggValue, h2, AccSt.value, h1, minOk]
   · simp only [aggValue, h1, AccSt.value, minOk, Bool.and_eq_true, List.contains_eq_mem, decide_eq_true_eq,
       List.all_eq_true, Bool.not_eq_eq_eq_not, Bool.not_true]
@@ -328,7 +345,8 @@ theorem min_spec_partial (a : AggSpec) (rows : List Row) (hk : a.kind = .min) (h
 
 theorem max_spec_partial (a : AggSpec) (rows : List Row) (hk : a.kind = .max) (hok : ValsOk a rows) :
     maxOk (aggValue a rows) (argVals a rows) = true := by
-  rcases max_inv a hk rows hok with ⟨h1, h2⟩ | ⟨m, h1, h2⟩
+  have hinv := hok.elim (max_inv false a hk rows) (max_inv true a hk rows)
+  rcases hinv with ⟨h1, h2⟩ | ⟨m, h1, h2⟩
   · simp [aggValue, h2, AccSt.value, h1, maxOk]
   · simp only [aggValue, h1, AccSt.value, maxOk, Bool.and_eq_true, List.contains_eq_mem, decide_eq_true_eq,
       List.all_eq_true, Bool.not_eq_eq_eq_not, Bool.not_true]
@@ -356,10 +374,7 @@ theorem max_spec_witness :
 example : ValsOk ⟨.min, false, false, .var 0, none, 1⟩ exRows ∧
     aggValue ⟨.min, false, false, .var 0, none, 1⟩ exRows = some (.bool true) ∧
     aggValue ⟨.max, false, false, .var 0, none, 1⟩ exRows = some (.num .integer 2 0) := by
-  refine ⟨?_, by decide +kernel, by decide +kernel⟩
-  intro t ht
-  revert t
-  decide +kernel
+  refine ⟨by decide +kernel, by decide +kernel, by decide +kernel⟩
 
 /-- SAMPLE: a value of the group (the first one), unbound iff there is none -/
 def Statement_sample_spec : Prop :=
